@@ -880,7 +880,7 @@ fn run_case(line: &str) -> String {
             neg = parse_hex(v);
         } else if let Some(v) = tok.strip_prefix("fifo=") {
             fifo = parse_hex(v);
-        } else if tok.starts_with("dev=") {
+        } else if tok.starts_with("dev=") || tok.starts_with("fspec=") || tok.starts_with("ftail=") {
             // expected I2C address: used by the model only; the real address is journalled
         } else {
             panic!("bad header token {}", tok);
